@@ -36,6 +36,9 @@ def transform(inst, kind, rng_seed):
   elif kind == 'shift':
     k = rng.choice([1, 7, 365, 1000])
     t['date0'] = str((__import__('pandas').Timestamp('2020-01-01') + __import__('pandas').Timedelta(days=k)).date())
+  elif kind == 'int_dates':
+    # dates given as plain day numbers, shifted across a power of ten
+    t['int_dates'] = rng.choice([3, 95, 990])
   elif kind == 'int_ids':
     # replace IDs by integers (dtype int64 column) - eligibility keys follow
     m = {g: str(100 + i * 7) for i, g in enumerate(sorted(inst['geos'], reverse=True))}
@@ -50,7 +53,7 @@ def transform(inst, kind, rng_seed):
     _rename(t, m)
     info['map'] = m
   elif kind == 'scale':
-    c = 2.0 ** rng.choice([-3, -1, 2, 5, 10])
+    c = 2.0 ** rng.choice([-3, -1, 2, 5, 10, -12, -20])
     t['rows'] = [[g, d, v * c] for g, d, v in t['rows']]
     info['c'] = c
     t['scale_budget'] = c
@@ -94,6 +97,8 @@ def run_one(inst, resolved, which):
   try:
     par = se.build_params(inst, resolved)
     frame = se.build_frame(inst, id_type=inst.get('id_type', 'str'), date0=inst.get('date0', '2020-01-01'))
+    if inst.get('int_dates') is not None:
+      frame['date'] = [inst['int_dates'] + int(r[1]) for r in inst['rows']]
     data = tbrmmdata.TBRMMData(frame, 'response', se.build_elig(inst))
     mm = tbrmatchedmarkets.TBRMatchedMarkets(data, par)
     res = mm.exhaustive_search() if which == 'exhaustive' else mm.greedy_search()
@@ -150,7 +155,7 @@ def run(out, tier, model_ok=True):
     inst = se.gen_instance(rng, tier, max_admitted=5, theme=rng.choice(['default', 'default', 'share_lo', 'tfixed_budget']))
     if inst['params'].get('iroas') in (0, 0.0):
       inst['params']['iroas'] = 1.0
-    kinds = ['shuffle', 'shift', 'rename', 'scale']
+    kinds = ['shuffle', 'shift', 'rename', 'scale', 'int_dates']
     if all(g.isdigit() for g in inst['geos']) or rng.random() < 0.5:
       kinds.append('int_ids')
     jobs.append((f'm{i}', inst, kinds))
@@ -180,7 +185,7 @@ def run(out, tier, model_ok=True):
         if res[w].get('ok'):
           nontriv = True
     out.count((r['iid'], json.dumps(r['resolved'], sort_keys=True)) if nontriv else None)
-  out.rule = (f'{n} search instances x 4-5 transformations (row shuffle, date shift by 1/7/365/1000 days, renaming incl. names that reverse '
+  out.rule = (f'{n} search instances x 4-5 transformations (row shuffle, date shift by 1/7/365/1000 days, dates as plain day numbers starting at 3/95/990, renaming incl. names that reverse '
               'the alphabetical order and eligibility renamed alike, integer-dtype IDs, scaling of every response and of the budget range by '
               '2^k) x both searches, real runs on fresh objects compared design by design (groups up to the renaming, test outcomes and '
               'rounded correlation identical, impact-based quantities scaled; tie classes may be permuted); '
